@@ -66,8 +66,15 @@ def f2py(cond):
     return c
 dbd = {}
 cur = None
+in4b = False
 for l in body[:start]:
     l = l.split('!')[0].rstrip()
+    if cur is not None and re.match(r'^\s+if\(modebb\.eq\.20\)\s*then', l): in4b = True; continue
+    if in4b:
+        if re.match(r'^\s+endif', l): in4b = False; continue
+        m = re.match(r'^\s+(Qbb|Zdbb)=([-0-9.]+)\s*$', l)
+        if m: dbd[cur][m.group(1) + '4b'] = float(m.group(2))
+        continue
     m = re.search(r"^\s+chnuclide='([^']+)'", l)
     if m:
         cur = m.group(1).strip(); dbd[cur] = {'rules': [], 'maxlev': 0}; continue
@@ -95,12 +102,14 @@ for k, v in dbd.items():
     assert all(x is not None for x in v['levelE']), (k, v)
 with open(dst, 'w') as o:
     o.write('// itrans = -1 : the reference leaves itrans02 unassigned for that level (stale value from a previous call)\n')
-    o.write('struct RefDbd { double Q, Z, A; std::vector<int> levelE; std::vector<int> itrans; std::vector<double> EK; };\n')
+    o.write('// Q4b/Z4b: values the reference substitutes for mode 20 (it also forces ilevel=0); 0 when none\n')
+    o.write('struct RefDbd { double Q, Z, A; std::vector<int> levelE; std::vector<int> itrans; std::vector<double> EK; double Q4b, Z4b; };\n')
     o.write('static const std::map<std::string, RefDbd> REF_DBD = {\n')
     for k in sorted(dbd):
         v = dbd[k]
-        o.write('  {"%s", {%r, %r, %r, {%s}, {%s}, {%s}}},\n' % (k, v['Qbb'], v['Zdbb'], v['Adbb'],
-                ','.join(map(str, v['levelE'])), ','.join(map(str, v['itrans02'])), ','.join(map(repr, v['EKl']))))
+        o.write('  {"%s", {%r, %r, %r, {%s}, {%s}, {%s}, %r, %r}},\n' % (k, v['Qbb'], v['Zdbb'], v['Adbb'],
+                ','.join(map(str, v['levelE'])), ','.join(map(str, v['itrans02'])), ','.join(map(repr, v['EKl'])),
+                v.get('Qbb4b', 0.0), v.get('Zdbb4b', 0.0)))
     o.write('};\n')
     o.write('// generated by ref/mkdict.py from the reference Fortran -- do not edit\n')
     o.write('static const std::map<std::string, std::vector<double>> REF_DICT = {\n')
